@@ -177,6 +177,13 @@ def run(ctx):
                 elif g and not (exp["good"] and exp.get("exact", True)):
                     ctx.mismatch(op, replay, "guards hold ⇒ the real edit succeeds, check() passes, the step is ReplaceStep(p, p, slice)",
                                  f"guards hold; real edit: {exp}")
+                if g is False and op in ("insguard insert", "insguard drop"):
+                    why = ("not a TextStable schema" if out.get("ts") is False else
+                           "the parent does not allow the node's marks" if out.get("marks") is False else
+                           "an open slice" if out.get("closed") is False else
+                           "answered by the second pass" if op == "insguard drop" and out.get("pass1") != {"ok": replay.get("point")} else
+                           "insideTextGuard fails" if out.get("inside") is False else "other")
+                    ctx.count(f"{op}: guards=False because {why}, edit {'succeeded' if exp['good'] else 'failed'}")
                 if "boundary" in exp:
                     ctx.count(f"{op}: guards={g}, " + ("at a child boundary" if exp["boundary"] else "inside a text child")
                               + f", edit {'succeeded' if exp['good'] else 'failed'}")
